@@ -253,7 +253,7 @@ func c21FamShared(r *rand.Rand, name string, comment bool) string {
 // alphabetical order of the parents' node names. `Root : Par | Par Par` keeps the language small enough for
 // every alternative of every parent to be among the enumerated sentences.
 func c21FamSharedNT(r *rand.Rand, name string, comment bool) string {
-	m := []int{3, 5, 3, 6, 7, 3, 5, 1, 2, 4}[r.Intn(10)]
+	m := []int{3, 5, 3, 6, 7, 3, 5, 3, 1 + r.Intn(7), 1 + r.Intn(7)}[r.Intn(10)]
 	np := 2 + r.Intn(2)
 	term := 0
 	nextTerm := func() string { term++; return fmt.Sprintf("'%c'", 'a'+term-1) }
@@ -271,7 +271,7 @@ func c21FamSharedNT(r *rand.Rand, name string, comment bool) string {
 		key := nextTerm()
 		pname := fmt.Sprintf("P%c", 'a'+letters[p])
 		own := ""
-		if r.Intn(10) != 0 {
+		if p < 2 || r.Intn(4) != 0 { // the first two parents always add their own alternative
 			own = fmt.Sprintf("%s=(%s -> D%d)", fname, nextTerm(), p+1)
 		}
 		var body string
